@@ -296,7 +296,8 @@ class Exec:
     def __init__(self, module, ctx, move_table):
         self.m, self.c, self.move_table = module, ctx, move_table
         self.frames = 0
-        self.mem = {}           # (frame, word offset) -> [4 values]
+        self.mem = {}           # (frame, word offset) -> [4 values] in stack order (index 0 = top of the stack after a
+                                # word load = element 3 of the memory word; mem_load / mem_store access element 0 = index 3)
         self.steps = 0
 
     def new_frame(self):
@@ -408,12 +409,12 @@ class Exec:
                 raise Undecided("%s:%d: %s through %r" % (self.m.path, ln, op, a))
             v = stack.pop(0)
             w = list(self.mem.get((a.frame, a.off), [None] * 4))
-            w[0] = c.cut(v) if isinstance(v, BV) else v
+            w[3] = c.cut(v) if isinstance(v, BV) else v       # element 0 of the memory word = 4th item in stack order
             self.mem[(a.frame, a.off)] = w
             return
         if op in ("loc_load", "mem_load"):
             a = Addr(frame, int(imm[0])) if op == "loc_load" else (stack.pop(0) if not imm else None)
-            v = self.word_at(a, ln)[0]
+            v = self.word_at(a, ln)[3]
             if v is None:
                 raise Undecided("%s:%d: read of an unwritten element" % (self.m.path, ln))
             stack.insert(0, v)
